@@ -876,7 +876,8 @@ class Authenticated(BaseClientHandler):
         """
         await self.send_pending_notifications()
         assert self.server
-        await Mailbox.create(cmd.mailbox_name, self.server)
+        async with self.server.namespace_lock:
+            await Mailbox.create(cmd.mailbox_name, self.server)
         cmd.completed = True
 
     ##################################################################
@@ -891,7 +892,7 @@ class Authenticated(BaseClientHandler):
         assert self.server
         await self.send_pending_notifications()
         mbox = await self.server.get_mailbox(cmd.mailbox_name)
-        async with cmd.ready_and_okay(mbox):
+        async with cmd.ready_and_okay(mbox), self.server.namespace_lock:
             await Mailbox.delete(cmd.mailbox_name, self.server)
 
     ##################################################################
@@ -906,7 +907,7 @@ class Authenticated(BaseClientHandler):
         await self.send_pending_notifications()
         assert self.server
         mbox = await self.server.get_mailbox(cmd.mailbox_src_name)
-        async with cmd.ready_and_okay(mbox):
+        async with cmd.ready_and_okay(mbox), self.server.namespace_lock:
             await Mailbox.rename(
                 cmd.mailbox_src_name, cmd.mailbox_dst_name, self.server
             )
